@@ -186,14 +186,17 @@ void harness(void) {
 #endif
   a_inject = false;
   VF_ASSERT(!ok, "insertion whose growth was refused (or impossible) reports failure");
-  u128 newcap = cap == 0 ? 1 : (u128)2 * cap;
-  u128 want = newcap * elem;
+  /* policy-independent: the request is a whole number of elements, strictly more than the old capacity, and at least geometric
+     (>= 1.5 x old once old >= 2); the configured factor CBOR_BUFFER_GROWTH only enters the "gave up" clause */
   if (a_realloc_calls) {
     VF_ASSERT(a_realloc_calls == 1, "exactly one growth request");
-    VF_ASSERT(want <= SIZE_MAX, "growth never proceeds on a wrapped size");
-    VF_ASSERT((u128)a_last_realloc_size == want, "requested bytes = element size x new capacity, new capacity = 1 or GROWTH x old (never smaller)");
+    size_t asked = a_last_realloc_size;
+    VF_ASSERT(asked % elem == 0, "growth request is a whole number of elements");
+    size_t newcap = asked / elem;
+    VF_ASSERT(newcap > cap, "growth never computes a capacity that is not larger than the old one (no wrapped product)");
+    if (cap >= 2) VF_ASSERT(newcap - cap >= cap / 2, "growth is geometric (at least 1.5 x)");
   } else {
-    VF_ASSERT(newcap > SIZE_MAX / 2 / elem, "growth is given up without a request only when the size computation could overflow");
+    VF_ASSERT((u128)cap * CBOR_BUFFER_GROWTH > SIZE_MAX / 2 / elem, "growth is given up without a request only when the size computation could overflow");
   }
 #if KIND == 1
   VF_ASSERT(c->metadata.array_metadata.allocated == cap && c->metadata.array_metadata.end_ptr == cap, "metadata unchanged after failed growth");
@@ -218,10 +221,10 @@ void harness(void) {
     VF_ASSERT(ok, "indefinite arrays accept any number of entries");
     size_t cap = cbor_array_allocated(c);
     VF_ASSERT(cap >= lastcap && cap >= cbor_array_size(c), "capacity never shrinks and covers the size");
-    VF_ASSERT(cap == lastcap || cap == (lastcap == 0 ? 1 : 2 * lastcap), "capacity grows geometrically");
+    if (cap != lastcap && lastcap >= 2) VF_ASSERT(cap - lastcap >= lastcap / 2, "capacity grows geometrically (at least 1.5 x)");
     lastcap = cap;
   }
-  VF_ASSERT(a_realloc_calls == 5, "16 insertions cost exactly 5 reallocations (1,2,4,8,16)");
+  VF_ASSERT(a_realloc_calls <= 8, "16 insertions cost a logarithmic number of reallocations (<= ceil(log_1.5 16) + 1)");
   VF_ASSERT(cbor_refcount(e) == 17, "one reference per slot plus the client's");
   cbor_decref(&c);
   VF_ASSERT(cbor_refcount(e) == 1, "released");
